@@ -197,6 +197,15 @@ func VerifRdPos() {
 	verifrt.ObserveBytes("out", out)
 	verifrt.Assume(err == io.EOF) // C02 owns "EOF is reached"
 	verifrt.Cover("eof")
+	if verifrt.Param("REUSE") == 1 {
+		// the Reader is reused on another source that is not a *bufio.Reader; the first
+		// source belongs to the caller and must stay where the first stream ended
+		rs, ok := r.(Resetter)
+		verifrt.Assert(ok, "C13:not-a-resetter")
+		rs.Reset(bytes.NewReader([]byte{0x4b, 0x4c, 0x4a, 0x06, 0x00, 0x77}), nil)
+		out2, err2, _ := vhDrain(r, 8, 100)
+		verifrt.Assert(err2 == io.EOF && string(out2) == "abc", "C13:bytes")
+	}
 	rest := vhReadRest(src, 16)
 	verifrt.ObserveBytes("rest", rest)
 	verifrt.Assert(vhEqual(rest, tail), "C05:source-position")
